@@ -14,7 +14,7 @@ import XmppModel.Model.Muc
       I mediated invitation   N unrelated stanza   ?<bits> Joined() of every channel
       =<a0>.<a1>… Me() of every channel (emitted when it changed)
       %c | %s | %a  (first token, optional) stanza namespace of the session: jabber:client (default),
-        jabber:server, jabber:component:accept
+        jabber:server, jabber:component:accept; a following `n` (%cn …): a Client without callbacks
       Ej<c>:<shape> / El<c>:<shape>  the error reply with the given children (harness/c18/reply.go):
         x echoed muc x, w white space, p echoed <priority/>, s echoed <status/>, then the error element
         (e b n a m t g: forms of the error; its namespace is the session's)
@@ -31,7 +31,7 @@ def chk (b : Bool) (s : St) : Option St := if b then some s else none
 
 def parseChild (c : Char) : Option Child :=
   if c = 'b' then some .body else if c = 's' then some .subject else if c = 'l' then some .legacyX
-  else if c = 'u' then some .unrelated else if c = 'm' ∨ c = 'M' then some .mucInvite
+  else if c = 'u' then some .unrelated else if c = 'm' ∨ c = 'M' ∨ c = 'P' then some .mucInvite
   else if c = 'd' then some .mucOther else none
 
 def affOfLetter (c : Char) : Option (Option String) :=
@@ -64,9 +64,13 @@ def presAddr (r : List Char) : Option Nat :=
   | [as, p] => if payloadOk p.toList then as.toNat? else none
   | _ => none
 
-def cfgNs (tok : String) : Option String :=
-  if tok = "%c" then some nsClient else if tok = "%s" then some nsServer
-  else if tok = "%a" then some nsAccept else none
+/-- configuration token: stanza namespace of the session, and whether the application has set the
+callbacks (`n`: it has not — the bookkeeping is the same, nothing is called) -/
+def cfgNs (tok : String) : Option (String × Bool) :=
+  if tok = "%c" then some (nsClient, true) else if tok = "%s" then some (nsServer, true)
+  else if tok = "%a" then some (nsAccept, true)
+  else if tok = "%cn" then some (nsClient, false) else if tok = "%sn" then some (nsServer, false)
+  else if tok = "%an" then some (nsAccept, false) else none
 
 /-- children of an error reply of the given shape on a stream whose stanza namespace is `ns` -/
 def shapeChild (ns : String) (c : Char) : Option RChild :=
@@ -160,11 +164,11 @@ def handle (args : List String) : Option String :=
     let l ← mapM? String.toNat? (splitList addrs)
     let addr := fun c => match l[c]? with | some a => a | none => 100000 + c
     let toks := splitList trace
-    let (ns, toks) := match toks with
-      | t :: ts => (match cfgNs t with | some ns => (ns, ts) | none => (nsClient, toks))
-      | [] => (nsClient, toks)
+    let ((ns, cb), toks) := match toks with
+      | t :: ts => (match cfgNs t with | some c => (c, ts) | none => ((nsClient, true), toks))
+      | [] => ((nsClient, true), toks)
     match replay ns l.length toks 0 (init addr) with
-    | .ok s => pure s!"joined={bits l.length s} upres={s.upres} inv={s.invites}"
+    | .ok s => pure s!"joined={bits l.length s} upres={if cb then s.upres else 0} inv={if cb then s.invites else 0}"
     | .error e => pure e
   | _ => none
 
